@@ -17,7 +17,7 @@ from pyvc import contract as C
 from pyvc import plug_graph as PG
 from pyvc.contract import Contract, LoopSpec, register, schema
 from pyvc.npmodel import TArr
-from pyvc.plug_c09 import ALLJAC, CS, ELS, F2, JACT, SEQ_B, SEQ_ELS, TDiscTuple, TNameTuple, cfold, cfold_axioms
+from pyvc.plug_c09 import ALLJAC, CS, ELS, F2, JACT, SEQ_B, SEQ_ELS, TDiscTuple, TNameTuple, cfold, cfold_axioms, some_kept
 from pyvc.plug_graph import DIFF_S, DLIST, NAMES, NXG, DiscS, TDisc, in_names, is_continuous, out_names, reach, reach_axioms, set_member
 from pyvc.values import StrS, TBool, TDict, TInt, TList, TNone, TObj, TOpt, TSet, TStr, TTuple
 
@@ -190,7 +190,7 @@ def blk_els(bt):
 
 def has_block(A, d, o, x):
     """discipline d has a Jacobian block for (o, x) in the dictionary of all the disciplines' Jacobians A (array Disc -> JACT)"""
-    return r_has(j_row(A[d], o), x)
+    return z3.And(j_has(A[d], o), r_has(j_row(A[d], o), x))
 
 
 def block(A, d, o, x):
@@ -233,15 +233,19 @@ def seq_C(A, L, o, x):
 
 
 def summed_ok(J, A, L, o, x):
-    """J[o][x] exists, has the shape (size(o), size(x)) and is the sum, in the order of the chain, of the blocks (o, x) of the disciplines that have one"""
+    """J[o] exists; if some discipline has a block (o, x): J[o][x] exists, has the shape (size(o), size(x)) and is the sum, in the order of the
+    chain, of the blocks (o, x) of the disciplines that have one; if none has one: J[o] has no entry for x"""
     b = r_blk(j_row(J, o), x)
-    return z3.And(j_has(J, o), r_has(j_row(J, o), x), F2.dim(b, 0) == vsz(o), F2.dim(b, 1) == vsz(x), blk_els(b) == cfold(seq_S(A, L, o, x), seq_C(A, L, o, x), L.n))
+    some = some_kept(L.n, lambda t: has_block(A, L.elems[t], o, x))
+    return z3.And(j_has(J, o), z3.If(some,
+                                     z3.And(r_has(j_row(J, o), x), F2.dim(b, 0) == vsz(o), F2.dim(b, 1) == vsz(x), blk_els(b) == cfold(seq_S(A, L, o, x), seq_C(A, L, o, x), L.n)),
+                                     z3.Not(r_has(j_row(J, o), x))))
 
 
 def lin_shapes(A):
     d, o, x = D("d!ls"), S("o!ls"), S("x!ls")
     b = block(A, d, o, x)
-    return FA([d, o, x], z3.Implies(z3.And(j_has(A[d], o), has_block(A, d, o, x)), z3.And(F2.dim(b, 0) == vsz(o), F2.dim(b, 1) == vsz(x))), has_block(A, d, o, x))
+    return FA([d, o, x], z3.Implies(has_block(A, d, o, x), z3.And(F2.dim(b, 0) == vsz(o), F2.dim(b, 1) == vsz(x))), r_has(j_row(A[d], o), x))
 
 
 def _z3safe(fn):
@@ -286,16 +290,7 @@ class AdditiveComputeJacobian(_Additive):
         return [
             # Discipline.linearize checks the shapes of the blocks it returns (_check_jacobian_shape)
             ("linearised-blocks-have-the-variable-sizes", lin_shapes(LIN)),
-            # a requested input is an input of some discipline, which then differentiates its outputs w.r.t. it
-            ("some-discipline-differentiates-each-requested-pair", FA([m, j], z3.Implies(z3.And(0 <= m, m < Os.n, 0 <= j, j < X.n), z3.Exists([t], z3.And(0 <= t, t < L.n, has_block(LIN, L.elems[t], Os.elems[m], X.elems[j])))),
-                                                                      z3.MultiPattern(Os.elems[m], X.elems[j]))),
         ]
-
-    def finding_regions(self, c):
-        s = c.old.self
-        L, Os, LIN = s._ProcessDiscipline__disciplines, s._outputs_to_sum, s._c09_lin_jacs.vals
-        m, t = z3.Ints("m!fr t!fr")
-        return {"a-discipline-has-no-jacobian-entry-for-a-summed-output": z3.Exists([t, m], z3.And(0 <= t, t < L.n, 0 <= m, m < Os.n, z3.Not(j_has(LIN[L.elems[t]], Os.elems[m]))))}
 
     def ensures(self, c):
         s0, s1 = c.old.self, c.new.self
@@ -335,7 +330,9 @@ def _add_inv1(c, k):
         ("current-output-is-present", j_has(J, o_)),
         ("current-output-has-only-the-first-inputs", FA([x], z3.Implies(r_has(j_row(J, o_), x), _in_names(X, x, k, "a1")), r_has(j_row(J, o_), x))),
         ("first-blocks-are-summed", FA([j], z3.Implies(z3.And(0 <= j, j < k), summed_ok(J, A, L, o_, X.elems[j])), X.elems[j])),
-        ("other-outputs-untouched", FA([o], z3.Implies(o != o_, z3.And(j_has(J, o) == j_has(J0, o), j_row(J, o) == j_row(J0, o))), j_row(J, o))),
+        # (array-level, quantifier-free: the two dictionaries agree everywhere except on the value of the current output)
+        ("same-outputs-as-at-loop-entry", J.member == J0.member),
+        ("other-outputs-untouched", z3.Store(J.vals, o_, j_row(J0, o_)) == J0.vals),
     ]
 
 
@@ -360,14 +357,8 @@ class AdditiveComputeJacobianTwoDisciplines(_Additive):
         for a, x in enumerate(xs):
             for b, d in enumerate(ds):
                 blk = block(LIN, d.term, o, x)
-                out.append((f"linearised-blocks-have-the-variable-sizes:{a}{b}", z3.Implies(z3.And(j_has(LIN[d.term], o), has_block(LIN, d.term, o, x)),
-                                                                                              z3.And(F2.dim(blk, 0) == vsz(o), F2.dim(blk, 1) == vsz(x)))))
-            out.append((f"some-discipline-differentiates-each-requested-pair:{a}", z3.Or(*[has_block(LIN, d.term, o, x) for d in ds])))
+                out.append((f"linearised-blocks-have-the-variable-sizes:{a}{b}", z3.Implies(has_block(LIN, d.term, o, x), z3.And(F2.dim(blk, 0) == vsz(o), F2.dim(blk, 1) == vsz(x)))))
         return out
-
-    def finding_regions(self, c):
-        ds, o, xs, LIN = self._parts(c)
-        return {"a-discipline-has-no-jacobian-entry-for-a-summed-output": z3.Or(*[z3.Not(j_has(LIN[d.term], o)) for d in ds])}
 
     def ensures(self, c):
         ds, o, xs, LIN = self._parts(c)
@@ -377,17 +368,108 @@ class AdditiveComputeJacobianTwoDisciplines(_Additive):
         i, j = z3.Ints("i!b2 j!b2")
         x_, o_ = S("x!b2"), S("o!b2")
         out = [("summed-output-present", j_has(J, o))]
+        some = {}
         for a, x in enumerate(xs):
             b = r_blk(j_row(J, o), x)
+            some[a] = z3.Or(*[has_block(A, d.term, o, x) for d in ds])
             total = sum((z3.If(has_block(A, d.term, o, x), z3.Select(blk_els(block(A, d.term, o, x)), i, j), z3.RealVal(0)) for d in ds), z3.RealVal(0))
             out += [
-                (f"block-present:{a}", r_has(j_row(J, o), x)),
-                (f"block-shape:{a}", z3.And(F2.dim(b, 0) == vsz(o), F2.dim(b, 1) == vsz(x))),
-                (f"block-is-the-sum-of-the-disciplines-blocks:{a}", z3.ForAll([i, j], z3.Implies(z3.And(0 <= i, i < vsz(o), 0 <= j, j < vsz(x)), z3.Select(blk_els(b), i, j) == total))),
+                (f"block-present-iff-some-discipline-has-one:{a}", r_has(j_row(J, o), x) == some[a]),
+                (f"block-shape:{a}", z3.Implies(some[a], z3.And(F2.dim(b, 0) == vsz(o), F2.dim(b, 1) == vsz(x)))),
+                (f"block-is-the-sum-of-the-disciplines-blocks:{a}", z3.Implies(some[a], z3.ForAll([i, j], z3.Implies(z3.And(0 <= i, i < vsz(o), 0 <= j, j < vsz(x)), z3.Select(blk_els(b), i, j) == total)))),
             ]
         out += [
-            ("summed-output-has-exactly-the-requested-inputs", z3.ForAll([x_], r_has(j_row(J, o), x_) == z3.Or(*[x_ == x for x in xs]))),
+            ("summed-output-has-only-requested-inputs", z3.ForAll([x_], z3.Implies(r_has(j_row(J, o), x_), z3.Or(*[x_ == x for x in xs])))),
             ("other-outputs-keep-the-merged-entry", FA([o_], z3.Implies(o_ != o, z3.And(j_has(J, o_) == j_has(P, o_), j_row(J, o_) == j_row(P, o_))), j_row(J, o_))),
             ("frame:the-disciplines-jacobians-are-not-modified", z3.And(A1.vals == s0._c09_lin_jacs.vals, A1.member == s0._c09_lin_jacs.member, A1.n == s0._c09_lin_jacs.n)),
         ]
         return out
+
+
+# ============================================================================ MDOChain.copy_jacs
+from pyvc.values import TAddr, TVal, ValS  # noqa: E402
+
+ARR = TAddr("arr", TVal)  # a Jacobian block: reference into the symbolic heap of arrays (identity matters here), as in c05_caches
+JROW = TDict(TStr, ARR)
+JADDR = TDict(TStr, JROW)
+
+
+def a_rowmem(jt_vals, o):
+    return JROW.acc(0)(jt_vals[o])
+
+
+def a_rowvals(jt_vals, o):
+    return JROW.acc(1)(jt_vals[o])
+
+
+def _copied(J, R, member_R, h0, h, ctr0, ctr, tag):
+    """R (restricted to the outputs selected by member_R) is a deep copy of J: same inputs per output, every block a FRESH array
+    (allocated after entry) with the content of the source block."""
+    o, x = S(f"o!{tag}"), S(f"x!{tag}")
+    blk_r, blk_j = a_rowvals(R.vals, o)[x], a_rowvals(J.vals, o)[x]
+    return [
+        ("same-inputs", FA([o, x], z3.Implies(member_R(o), a_rowmem(R.vals, o)[x] == a_rowmem(J.vals, o)[x]), a_rowmem(R.vals, o)[x])),
+        ("blocks-are-fresh-copies", FA([o, x], z3.Implies(z3.And(member_R(o), a_rowmem(J.vals, o)[x]), z3.And(h[blk_r] == h0[blk_j], blk_r > ctr0, blk_r <= ctr)), blk_r)),
+    ]
+
+
+def _heap_kept(h0, h, ctr0, ctr, tag):
+    a = z3.Int(f"a!{tag}")
+    return z3.And(ctr >= ctr0, FA([a], z3.Implies(a <= ctr0, h[a] == h0[a]), h[a]))
+
+
+@register
+class CopyJacs(Contract):
+    """Deep copy: same outputs, same inputs per output, every block a fresh array with the same content; the argument and every
+    existing array are untouched.  (Nested dictionaries of arrays; flat dictionaries / JacobianOperator blocks: not covered.)"""
+
+    targets = (CHAIN + ".copy_jacs",)
+    prop = ("C09",)
+    params = {"jacobian": JADDR}
+    returns = JADDR
+    modifies = ("heap:arr",)
+    c09_chains = True
+    loops = {
+        0: LoopSpec(anchor="jacobian.items()", inv=lambda c, k: _cj_inv0(c, k), modifies=("jacobian_copy", "heap:arr"), local_types={"jacobian_copy": JADDR}),
+        1: LoopSpec(anchor="output_jacobian.items()", inv=lambda c, k: _cj_inv1(c, k), modifies=("jacobian_copy", "output_jacobian_copy", "heap:arr"),
+                    local_types={"output_jacobian_copy": JROW}),
+    }
+
+    def requires(self, c):
+        J = c.old.jacobian
+        o, x = S("o!cjr"), S("x!cjr")
+        return [("blocks-are-allocated", FA([o, x], z3.Implies(z3.And(J.member[o], a_rowmem(J.vals, o)[x]), a_rowvals(J.vals, o)[x] <= c.old_ctr), a_rowvals(J.vals, o)[x]))]
+
+    def ensures(self, c):
+        J, R = c.old.jacobian, c.result
+        h0, h1 = c.old_sym("arr", ValS), c.new_sym("arr", ValS)
+        o = S("o!cj")
+        return [("same-outputs", FA([o], R.member[o] == J.member[o], R.member[o]))] + _copied(J, R, lambda t: J.member[t], h0, h1, c.old_ctr, c.new_ctr, "cj") + [
+            ("existing-arrays-untouched", _heap_kept(h0, h1, c.old_ctr, c.new_ctr, "cj"))]
+
+
+def _cj_inv0(c, k):
+    J, R = c.old.jacobian, c.locals["jacobian_copy"]
+    h0, h = c.old_sym("arr", ValS), c.new_sym("arr", ValS)
+    o = S("o!c0")
+    done = lambda t: z3.And(J.member[t], c.seq.pos[t] < k)  # noqa: E731
+    return [("outputs-so-far", FA([o], R.member[o] == done(o), R.member[o]))] + _copied(J, R, done, h0, h, c.old_ctr, c.new_ctr, "c0") + [
+        ("existing-arrays-untouched", _heap_kept(h0, h, c.old_ctr, c.new_ctr, "c0"))]
+
+
+def _cj_inv1(c, k):
+    R, R0 = c.locals["jacobian_copy"], c.pre_locals["jacobian_copy"]
+    OJ, OC, o_ = c.locals["output_jacobian"], c.locals["output_jacobian_copy"], c.locals["output_name"]
+    pre = R0._heap  # the state in which this loop was entered
+    h0, h, hp = c.old_sym("arr", ValS), c.new_sym("arr", ValS), pre.sym.get("arr", c.old_sym("arr", ValS))
+    x, o = S("x!c1"), S("o!c1")
+    return [
+        ("inputs-so-far", FA([x], OC.member[x] == z3.And(OJ.member[x], c.seq.pos[x] < k), OC.member[x])),
+        ("blocks-so-far", FA([x], z3.Implies(OC.member[x], z3.And(h[OC.vals[x]] == h0[OJ.vals[x]], OC.vals[x] > c.old_ctr, OC.vals[x] <= c.new_ctr)), OC.vals[x])),
+        ("the-copy-of-the-current-output-is-in-place", z3.And(R.member[o_], a_rowmem(R.vals, o_) == OC.member, a_rowvals(R.vals, o_) == OC.vals)),
+        # (array-level, quantifier-free: the two dictionaries agree everywhere except on the value of the current output)
+        ("same-outputs-as-at-loop-entry", R.member == R0.member),
+        ("other-outputs-untouched", z3.Store(R.vals, o_, R0.vals[o_]) == R0.vals),
+        ("existing-arrays-untouched", _heap_kept(h0, h, c.old_ctr, c.new_ctr, "c1")),
+        ("arrays-of-the-previous-outputs-untouched", _heap_kept(hp, h, pre.ctr, c.new_ctr, "c1p")),
+    ]
